@@ -1159,6 +1159,8 @@ def parseValueN (isNum : String → Bool) : Nat → P VBox
 structure Outcome where
   ast : Option T
   errs : List PErr
+  /-- the reader discipline held throughout the run (ghost monitor) -/
+  disciplined : Bool
 
 def fuelFor (runes : List Char) : Nat := runes.length + 4
 
@@ -1168,7 +1170,7 @@ def runP (u16 : Bool) (cfg : Cfg) (runes : List Char) (f : P α) : Except Crash 
 /-- what an entry point hands back: the node (if any) and the error list, or the crash -/
 def finishRun {α : Type} (x : Except Crash (α × PState)) (g : α → Option T) : Except Crash Outcome :=
   match x with
-  | .ok (a, s) => .ok ⟨g a, s.errs.toList⟩
+  | .ok (a, s) => .ok ⟨g a, s.errs.toList, s.guardOk⟩
   | .error c => .error c
 
 /-- `Parse(path, r, opts)` on the bytes `bs` -/
